@@ -201,6 +201,20 @@ class Env:
 
             def f():          # noqa: F811
                 return inner()
+        if fid % 5 == 2:
+            # a factory callback may be any callable -- a callable dataclass / attrs instance defines __eq__ and
+            # is therefore not hashable
+            inner2 = f
+
+            class UnhashableFactory:
+                __hash__ = None
+
+                def __eq__(self, other):
+                    return self is other
+
+                def __call__(self):
+                    return inner2()
+            f = UnhashableFactory()
         return f
 
     # ---------- context tasks
